@@ -2,7 +2,8 @@
 From HTA.lib Require Import Base.
 From HTA.model Require Import C15_Model.
 From HTA.proof Require Import C15_Proofs.
-From HTA.proof Require Import Scale C15_Scale.
+From HTA.gen Require Import LaunchStats_gen.
+From HTA.proof Require Import Scale C15_Scale C15_RulesTie.
 
 (* one row per linked (launch call, device activity) pair, no other row, none twice *)
 Theorem C15_rows_bijection : forall mem l, NoDup l -> wf_launch l ->
@@ -38,3 +39,11 @@ Theorem C15_resolution_independent : forall k mem l, 0 <= k ->
   model_C15 mem (scale_evs k l) = map (scale_row15 k) (model_C15 mem l).
 Proof. exact C15_scale. Qed.
 Print Assumptions C15_resolution_independent.
+
+(* the launch names, the memory-launch names and the delay rule are regenerated from cuda_kernel_launch_stats on every run (strict
+   statement-by-statement reading of the per-rank loop: nothing may be hoisted out of it) and are the model's *)
+Theorem C15_rules_follow_source :
+  kernel_launch_names = kernel_launch_names_gen /\ memory_launch_names = memory_launch_names_gen /\
+  (forall r k, row (r, k) = [corr r; dur r; dur k; launch_delay_gen (ts r) (dur r) (ts k)]).
+Proof. exact launch_stats_rules_are_generated. Qed.
+Print Assumptions C15_rules_follow_source.
